@@ -53,6 +53,39 @@ Proof.
   - cbn. inversion Hnd as [|? ? Hb Hr]; subst. apply copy_ext. intros y. apply sset_comm. intros E. apply Hb. left. cbn. congruence.
   - rewrite IH1 by assumption. apply IH2. apply (Permutation_NoDup (Permutation_map fst H1) Hnd).
 Qed.
+(* copying the entries the destination (or another map) does not have yet: each step looks up and writes its own key only *)
+Lemma cm_step_ext gd g d d' kv : (forall x, d x = d' x) -> forall x, copy_missing_step gd g d kv x = copy_missing_step gd g d' kv x.
+Proof.
+  intros H x. unfold copy_missing_step. destruct gd.
+  - rewrite <- (H (fst kv)). destruct (d (fst kv)); [apply H|]. unfold sset. rewrite H. reflexivity.
+  - destruct (g (fst kv)); [apply H|]. unfold sset. rewrite H. reflexivity.
+Qed.
+Lemma cm_ext gd g order : forall d d', (forall x, d x = d' x) ->
+  forall x, fold_left (copy_missing_step gd g) order d x = fold_left (copy_missing_step gd g) order d' x.
+Proof.
+  induction order as [|kv r IH]; intros d d' H x; cbn [fold_left]; [apply H|]. apply IH. intros y. apply cm_step_ext. exact H.
+Qed.
+Lemma cm_step_comm gd g d a b : fst a <> fst b ->
+  forall x, copy_missing_step gd g (copy_missing_step gd g d a) b x = copy_missing_step gd g (copy_missing_step gd g d b) a x.
+Proof.
+  intros Hne x. unfold copy_missing_step. destruct gd.
+  - assert (Hab : N.eqb (fst a) (fst b) = false) by (apply N.eqb_neq; exact Hne).
+    assert (Hba : N.eqb (fst b) (fst a) = false) by (apply N.eqb_neq; congruence).
+    destruct (d (fst a)) eqn:Ea, (d (fst b)) eqn:Eb; unfold sset; cbn beta iota;
+      rewrite ?Hab, ?Hba, ?Ea, ?Eb; cbn beta iota; rewrite ?Hab, ?Hba, ?Ea, ?Eb; try reflexivity.
+    destruct (N.eqb_spec x (fst b)), (N.eqb_spec x (fst a)); congruence.
+  - destruct (g (fst a)), (g (fst b)); try reflexivity. apply sset_comm. congruence.
+Qed.
+Theorem copy_missing_order_free gd g o1 o2 dst : Permutation o1 o2 -> NoDup (map fst o1) ->
+  forall x, copy_missing gd g o1 dst x = copy_missing gd g o2 dst x.
+Proof.
+  unfold copy_missing. intros Hp. revert dst. induction Hp as [|a l l' Hp IH|a b l|l1 l2 l3 H1 IH1 H2 IH2]; intros dst Hnd x.
+  - reflexivity.
+  - cbn [fold_left]. inversion Hnd; subst. apply IH. assumption.
+  - cbn [fold_left]. inversion Hnd as [|? ? Hb Hr]; subst. apply cm_ext. intros y. apply cm_step_comm.
+    intros E. apply Hb. left. cbn. congruence.
+  - rewrite IH1 by assumption. apply IH2. apply (Permutation_NoDup (Permutation_map fst H1) Hnd).
+Qed.
 Lemma sdel_comm s k1 k2 : forall x, sdel (sdel s k1) k2 x = sdel (sdel s k2) k1 x.
 Proof. intros x. unfold sdel. destruct (N.eqb x k2), (N.eqb x k1); reflexivity. Qed.
 Lemma del_ext order : forall d d', (forall x, d x = d' x) -> forall x, fold_left sdel order d x = fold_left sdel order d' x.
@@ -172,8 +205,11 @@ Local Open Scope string_scope.
      delete          delete(m, key) for every key (delete_all_order_free);
      copy-entries    dst[key] = value for every entry: distinct keys (copy_all_order_free); also m(key, value) when the callee,
                      resolved through the type checker, does nothing but recv.field[p0] = p1 (ISchema.AddType).
+     copy-missing-entries  `if _, ok := g[key]; !ok { <copy-entries statement> }` with the loop's own key in the look-up: every
+                     step reads and writes the entry of its own key only, whether g is the destination or another map
+                     (copy_missing_order_free).
    So a loop of these shapes may be renamed, moved or added without a new argument. *)
-Definition generic_classes : list string := ["collect-sorted"; "delete"; "copy-entries"].
+Definition generic_classes : list string := ["collect-sorted"; "delete"; "copy-entries"; "copy-missing-entries"].
 (* shapes whose order-freeness rests on something particular: identified by file|function|class (the text of the ranged
    expression is not part of the identity, so renaming a local changes nothing) *)
 Definition accounted_sites : list string := [
